@@ -363,8 +363,9 @@ impl Fam {
             if feat(shape, "eoff") && n_imp_g > 0 {
                 let s = fam.fresh_site();
                 fam.reg.site_elem_off.insert(nseg, s);
-                sites.push(json!({"s":s,"k":["g",globs[0]],"owner":["x",0],"sk":"elem_off"}));
-                w += &format!("  (elem (table {}) (offset (global.get 0)) func)\n", table);
+                // the LAST imported global: its index moves when an earlier import is deleted
+                sites.push(json!({"s":s,"k":["g",globs[n_imp_g - 1]],"owner":["x",0],"sk":"elem_off"}));
+                w += &format!("  (elem (table {}) (offset (global.get {})) func)\n", table, n_imp_g - 1);
                 nseg += 1;
             }
         }
@@ -385,8 +386,8 @@ impl Fam {
                 fam.reg.site_data_mem.insert(content.clone(), s);
                 fam.reg.site_data_off.insert(content, s2);
                 sites.push(json!({"s":s,"k":["m",mems[0]],"owner":["x",0],"sk":"data_mem"}));
-                sites.push(json!({"s":s2,"k":["g",globs[0]],"owner":["x",0],"sk":"data_off"}));
-                w += &format!("  (data (memory 0) (offset (global.get 0)) \"O{}\")\n", s);
+                sites.push(json!({"s":s2,"k":["g",globs[n_imp_g - 1]],"owner":["x",0],"sk":"data_off"}));
+                w += &format!("  (data (memory 0) (offset (global.get {})) \"O{}\")\n", n_imp_g - 1, s);
             }
         }
         w += ")\n";
